@@ -560,12 +560,16 @@ func dirOf(f int) int { // index of the directory holding token file f: 0 = "/",
 	return 1
 }
 
-// resolvesD: the step resolves a path below /d (and so looks up the Directory object of /d).
-func resolvesD(s Step) bool {
+// instantiatesD: the step obtains the Directory object of /d from the root directory: it
+// resolves a path below /d, or lists "/" (a listing instantiates every child of the listed
+// directory, sub-directories included).
+func instantiatesD(s Step) bool {
 	switch {
 	case isFileOp(s.Kind):
 		return s.File != 0
-	case s.Kind == "list" || s.Kind == "flushdir":
+	case s.Kind == "list":
+		return true // "/d" is resolved, "/" instantiates all its children
+	case s.Kind == "flushdir":
 		return s.Arg == 1
 	case s.Kind == "mv" || s.Kind == "mvdir":
 		return true
@@ -584,7 +588,7 @@ func touches(s Step, f int, rootFlushed bool) bool {
 	if s.Kind == "list" && s.Arg == dirOf(f) {
 		return true
 	}
-	return f != 0 && rootFlushed && resolvesD(s)
+	return f != 0 && rootFlushed && instantiatesD(s)
 }
 
 func dirFlushExplains(c Case, f int) bool {
